@@ -21,7 +21,7 @@ TFEnd == IsEv("fend") /\ Ev.f = started /\ ~ended /\ ended' = TRUE /\ UNCHANGED 
 \*  (so its effects are visible to the caller)"
 TRet == /\ IsEv("ret") /\ Ev.t \in invoked
         /\ ended
-        /\ Ev.vals = [i \in 1..arity |-> started * 10 + i]
+        /\ Ev.vals = [i \in 1..arity |-> IF Ev.zero THEN 0 ELSE started * 10 + i]   \* (zero: the functions return zero values / nil interfaces)
         /\ Ev.effect = started
         /\ UNCHANGED <<invoked, started, ended, arity>>
 TInfo == IsEv("info") /\ UNCHANGED <<invoked, started, ended, arity>>
